@@ -1,5 +1,6 @@
 import AioslskVerif.Proofs.WireTop
 import AioslskVerif.Proofs.Obfs
+import AioslskVerif.Proofs.WireDomain
 import AioslskVerif.Generated.Schemas
 import AioslskVerif.Spec.Pinned
 /-!
@@ -134,6 +135,45 @@ theorem C01_obfuscation_shape (key data : Obfs.Bytes) :
   rw [Obfs.encLoop_eq key data 0 key (by simp)]
   simp [Obfs.encSpec_length]
 
+/-- **The domain in plain words.** For a well-formed schema the technical hypothesis `inDomain` of the
+round-trip theorems follows from the plain domain: one value per field, `None` exactly where a guard
+does not hold, a value where it holds, except for trailing `optional` fields with default `None`
+when nothing after them is written. (Ranges and lengths are "the encoder accepts the value".) -/
+theorem C01_domain_plain (s : MsgSchema) (vs : List Val) (hwf : s.wf = true)
+    (hd : plainDom vs s.fields vs = true) : inDomain s vs = true := by
+  simp only [MsgSchema.wf, Bool.and_eq_true] at hwf
+  have := plainDom_domFrom vs s.fields vs [] [] (by simp) rfl
+    (by intro i g h; simp at h) (by simpa using hwf.2) hd
+  exact this
+
+/-- hence: every plain-domain message of every class of the current source that the encoder accepts
+round-trips through its family dispatcher -/
+theorem C01_roundtrip_plain (z : Zlib) (hz : Zlib.Lawful z) (i : Nat) (s : MsgSchema) (vs : List Val)
+    (fr : Bytes) (hs : Generated.Schemas.schemas[i]? = some s) (hd : plainDom vs s.fields vs = true)
+    (he : encodeFrame z s vs = some fr) :
+    dispatch z Generated.Schemas.schemas s.family s.dir fr = .ok (i, vs) := by
+  have htw := C01_generated_wf
+  simp only [tableWf, Bool.and_eq_true, List.all_eq_true] at htw
+  have hwf : s.wf = true := htw.1 s (List.mem_of_getElem? hs)
+  exact C01_roundtrip_all z hz i s vs fr hs (C01_domain_plain s vs hwf hd) he
+
+/-- **Connection level** (`encode_message_data` then `decode_message_data`, connection.py:506-539):
+on an obfuscated connection the frame is obfuscated with any 4-byte key, de-obfuscated by the
+receiver and dispatched — the original message comes back; on a plain connection the frame is
+dispatched as is. -/
+theorem C01_roundtrip_connection (z : Zlib) (hz : Zlib.Lawful z) (i : Nat) (s : MsgSchema) (vs : List Val)
+    (fr : Bytes) (obf : Bool) (key : Obfs.Bytes) (hk : key.length = 4)
+    (hs : Generated.Schemas.schemas[i]? = some s) (hd : inDomain s vs = true)
+    (he : encodeFrame z s vs = some fr) :
+    dispatch z Generated.Schemas.schemas s.family s.dir
+      (if obf then Obfs.decode (Obfs.encode key fr) else fr) = .ok (i, vs) := by
+  cases obf with
+  | false => exact C01_roundtrip_all z hz i s vs fr hs hd he
+  | true =>
+    simp only [if_true]
+    rw [C01_obfuscation key fr hk]
+    exact C01_roundtrip_all z hz i s vs fr hs hd he
+
 /-! ## Non-vacuity: concrete in-domain values of the tricky classes -/
 section examples
 def idZ : Zlib := { deflate := id, inflate := some }
@@ -150,6 +190,12 @@ example : (Generated.Schemas.schemas[2]?).map (fun s => inDomain s [.nat 2234, .
   decide +kernel
 /-- … and a value OUTSIDE the domain (hole in the optional prefix) is recognised as such -/
 example : (Generated.Schemas.schemas[2]?).map (fun s => inDomain s [.nat 2234, .absent, .nat 2235]) = some false := by
+  decide +kernel
+/-- PeerTransferReply (guard + optional under guard) in the plain domain, both branches -/
+example : (Generated.Schemas.schemas.find? (fun s => s.family == .peer && s.id == 41)).map (fun s =>
+    plainDom [.nat 5, .bool true, .nat 1000, .absent] s.fields [.nat 5, .bool true, .nat 1000, .absent]
+    && plainDom [.nat 5, .bool false, .absent, .str ['n']] s.fields [.nat 5, .bool false, .absent, .str ['n']]
+    && !plainDom [.nat 5, .bool false, .nat 1, .absent] s.fields [.nat 5, .bool false, .nat 1, .absent]) = some true := by
   decide +kernel
 example : Obfs.decode (Obfs.encode [1, 2, 3, 4] [10, 20, 30, 40, 50]) = [10, 20, 30, 40, 50] := by decide
 end examples
